@@ -135,6 +135,50 @@ def charset_obligations(g, C, obs):
     obs.append(("charset/eval-site/argument-is-chain-result", ok, detail))
 
 
+def eval_globals_obligation(obs):
+    """
+    The clean expression is evaluated against docstring_parsers' globals.  Without '(' it cannot call anything; what it
+    CAN do is look names up, read attributes, subscript, and apply `/` and `|`.  Evaluated in a real interpreter: every
+    global is a module, a function, a class or plain data, i.e. no instance whose attribute access / subscripting /
+    operators run repository code.
+    """
+    code = (
+        "import json, sys, types, typing, enum\n"
+        "import cdd.shared.docstring_parsers as m\n"
+        "bad = []\n"
+        "def plain(v, depth=0):\n"
+        "    if v is None or isinstance(v, (str, bytes, int, float, complex, bool)): return True\n"
+        "    if isinstance(v, (tuple, list, frozenset, set)): return depth < 3 and all(plain(x, depth + 1) for x in v)\n"
+        "    if isinstance(v, dict): return depth < 3 and all(plain(k, depth + 1) and plain(x, depth + 1) for k, x in v.items())\n"
+        "    return False\n"
+        "for k, v in vars(m).items():\n"
+        "    if isinstance(v, (types.ModuleType, types.FunctionType, types.BuiltinFunctionType, type, functools_partial)) or plain(v):\n"
+        "        continue\n"
+        "    mod = type(v).__module__\n"
+        "    top = mod.split('.')[0]\n"
+        "    if top in sys.stdlib_module_names or top in ('_frozen_importlib', '_frozen_importlib_external', 'builtins'):\n"
+        "        continue\n"
+        "    bad.append('%s: instance of %s.%s' % (k, mod, type(v).__name__))\n"
+        "print(json.dumps({'n': len(vars(m)), 'bad': bad}))\n"
+    ).replace("functools_partial", "__import__('functools').partial")
+    env = dict(os.environ, PYTHONPATH=common.REPO)
+    r = subprocess.run([sys.executable, "-c", code], capture_output=True, text=True, env=env, timeout=120)
+    line = [l for l in r.stdout.splitlines() if l.startswith("{")]
+    if not line:
+        obs.append(("eval-globals/only-modules-functions-classes-and-plain-data", None, "could not evaluate: %s" % r.stderr[-200:]))
+        return
+    res = json.loads(line[-1])
+    obs.append(("eval-globals/only-modules-functions-classes-and-plain-data", not res["bad"],
+                "%d globals of docstring_parsers: all modules / functions / classes / plain data (stdlib instances aside), so a call-free expression cannot run repository code through attribute access, subscripting or operators (evaluated in a real interpreter)" % res["n"]
+                if not res["bad"] else "globals that are instances of non-stdlib classes: %s" % res["bad"][:5]))
+    # the locals visible at the eval site are plain data too: parameters and values assigned in that function
+    site_fn, _s, _p = extract.find_def("cdd.shared.docstring_parsers", "__set_name_and_type_handle_doc_in_param")
+    if site_fn is not None:
+        names = sorted({a.arg for a in site_fn.args.args} | {n.id for n in ast.walk(site_fn) if isinstance(n, ast.Name) and isinstance(n.ctx, ast.Store)})
+        ok = set(names) <= {"_param", "name", "was_none", "word_wrap", "typ", "e"}
+        obs.append(("eval-locals/only-known-plain-names", ok, "locals at the eval site are %s (a dict of strings, strings and booleans)" % names))
+
+
 def bounded():
     env = dict(os.environ)
     r = subprocess.run([sys.executable, "-m", "checks.c17_audit"], capture_output=True, text=True, env=env, cwd=common.VERIF, timeout=1500)
@@ -153,7 +197,7 @@ def main(tier, write_baseline=False):
         "E2 effect checker (/verif/cddvc/effects.py) and the over-approximating import-aware call graph (/verif/cddvc/callgraph.py)",
         "the primitive-effect tables of effects.py are complete for exec / dynamic import / spawn / network / file writes",
         "clean() refinement check (/verif/cddvc/charset.py): clean is preserved by concatenation, slicing, join, split, strip, lower, format into clean templates, lookups in clean tables",
-        "evaluating a clean expression is harmless: relies on the globals of docstring_parsers holding no object with side effects on attribute access / subscripting (NOT proved)",
+        "evaluating a clean (call-free) expression is harmless: the globals and locals visible at the eval site are checked to be modules / functions / classes / plain data (obligations C17/eval-globals, C17/eval-locals); attribute access on stdlib modules is assumed side-effect free",
     ])
     g = callgraph.Graph()
     disp = effects.add_dispatch_edges(g)
@@ -191,6 +235,7 @@ def main(tier, write_baseline=False):
     obs = []
     structural(g, C, obs)
     charset_obligations(g, C, obs)
+    eval_globals_obligation(obs)
     for n, ok, detail in obs:
         st = UNDECIDED if ok is None else (PROVED if ok else REFUTED)
         run.add("C17/" + n, st, "rule-engine", detail=detail)
